@@ -188,6 +188,11 @@ def build_table():
     add('negative-time', 'pg.Coalescent(n=n).moment(1, (pg.UnfoldedSFSReward(1),), end_time=x)', nt_inv, nt_val)
     add('negative-time', 'pg.Coalescent(n=n, loci=2).moment(1, end_time=x)', nt_inv, nt_val)
     add('negative-time', 'pg.Coalescent(n=n).accumulate(1, [x], (RW.TotalBranchLengthReward(),))', nt_inv, nt_val)
+    # a negative end time next to a POSITIVE start time (given on the call or at construction): the window route of moment()
+    for dist in ('.tree_height', '.total_branch_length', '.sfs', '.fsfs', ''):
+        add('negative-time', f'pg.Coalescent(n=n){dist}.moment(1, start_time=t, end_time=x)', nt_inv, nt_val)
+        add('negative-time', f'pg.Coalescent(n=n, start_time=t){dist}.moment(1, end_time=x)', nt_inv, nt_val)
+    add('negative-time', 'pg.Coalescent(n=n).tree_height.moment(2, start_time=t, end_time=x, center=False)', nt_inv, nt_val)
 
     # --- end before start at construction
     def ebs_inv(rng):
